@@ -94,12 +94,12 @@ def r1_teardown_in_finally(ctx, rep, R='C18.R1'):
                       'the %s loop does not cover all features in reverse order' % hook,
                       key='loop:' + hook, func=fi.qualname, where=ctx.where(fi, st))
     rep.floor(R, n, 2, 'teardown call sites')
-    # set-up hooks run before the try (a failing set-up is outside the property's scope), and
-    # nothing runs the tests outside the protected region
-    tries = [n_ for n_ in ast.walk(runnode) if isinstance(n_, ast.Try) and n_.finalbody and
-             any('run_tests' in norm(b) for b in n_.body)]
-    rep.check(len(tries) == 1, R, 'run_tests is called inside try/finally', 'run_tests is not '
-              'protected by a finally', key='try', func=fi.qualname, where=ctx.where(fi, fi.node))
+    # one test phase (how it is protected -- try/finally, except BaseException + else -- is decided
+    # by the path obligations above, not by the spelling)
+    rep.check(len(rt) >= 1 and len({id(g.node(x).ast) for x in rt}) == 1, R,
+              'one run_tests call site in Runner.run', 'found %d run_tests call sites'
+              % len({id(g.node(x).ast) for x in rt}), key='try', func=fi.qualname,
+              where=ctx.where(fi, fi.node))
 
 
 def _hook_methods(ctx, cls, names):
